@@ -1,2 +1,358 @@
-(** C06 -- placeholder until SplitCommProofs lands (statements are added with their proofs). *)
-From PV Require Import Outcome.
+(** C06 -- Results independent of MPI ranks and OpenMP threads; runs always terminate.
+    Statements only.  Model: PV.SplitComm (per-rank sequences of collective calls of mpi_skel::run,
+    TwoParticleGF::compute, TwoParticleGFContainer::computeAll_split / _nosplit, Hamiltonian::prepare / compute; where
+    tables, term lists and statuses are afterwards; the OpenMP loop of ComputeAndClearWrap::run).  Proofs:
+    PV.SplitCommProofs.  Generated fragments: PVgen.Gen_SplitColors (colour arithmetic, shape of the colour-root
+    assignment, communicator of the post-loop barrier).
+
+    Reading guide.
+    - [fx : fixes] selects the variant of the code (three booleans: barrier on the skeleton's own communicator /
+      first rank of a colour is its root / received parts marked Computed).  Theorems carry exactly the flag they
+      need as a hypothesis; [all_fixed] is the repaired code, [none_fixed] the original one.  Which variant /repo
+      is: props/Properties_C06_current.v (compiles iff the translator sees all three repairs).
+    - [col : colouring] gives the colours of ranks and elements.  Everything except the "every colour is
+      inhabited" statements holds for ANY colouring, hence for all P.  Two instances: [float_colouring] (what the
+      C++ computes, binary64) and [exact_colouring] (the same expressions in exact arithmetic).  They differ from
+      P = 18 on ([float_color_neq_exact_18]).
+    - [jm] is the outcome of the dispatch rounds (which local rank ran which part): an arbitrary function = any
+      timing of the workers.  Where the data theorems need it to name ranks of the communicator ([jm_in_range]),
+      that is what C16 final_state provides (dmap s j = Some w with w in the pool).
+    - Termination = C16 (every rank leaves the point-to-point dispatch loop, Properties_C16.no_deadlock /
+      progress_measure / bounded_work) + the theorems [split_no_deadlock], [nosplit_no_deadlock],
+      [hamiltonian_no_deadlock] below (between and after the dispatch loops only collectives are issued, and
+      under ANY order in which the communicators proceed no rank is left waiting in a collective).
+    - Primitive floats / 63-bit integers appear in [Print Assumptions] of the float statements as kernel
+      primitives (the operations of PrimFloat and PrimInt63); they are evaluated by Coq's kernel with the machine's IEEE arithmetic
+      and are not axioms of this development.  There are no other assumptions. *)
+Require Import List Arith Bool Permutation.
+From PVgen Require Import Gen_SplitColors.
+From PV Require Import SplitComm SplitCommProofs.
+Import ListNotations.
+
+(** The parts of mpi_skel::run / computeAll_split that the model writes out literally have the shape the source
+    has now: 2 barriers before the dispatch loop, 1 after the post-loop barrier, 2 broadcasts from ROOT = 0 in
+    either branch, 3 broadcasts per part in the distribution loop. *)
+Theorem model_shape_matches_code :
+  (gen_skel_barriers_before_loop, gen_skel_barriers_after, gen_skel_bcasts_root_branch,
+   gen_skel_bcasts_other_branch, gen_skel_root, gen_distribute_bcasts_per_part) = (2, 1, 2, 2, 0, 3).
+Proof. exact SplitCommProofs.model_shape_matches_code. Qed.
+Print Assumptions model_shape_matches_code.
+
+(* ------------------------------------------------------------------------------------------------------- *)
+(** * Collectives match; runs terminate *)
+
+(** computeAll_split, repaired barrier: for every P, colouring, list of components (any length, any vanishing
+    pattern, any part counts), purge flag and job maps, all members of every communicator issue the same sequence
+    of (kind, root) on it, and no rank issues a collective on a communicator it is not a member of. *)
+Theorem collectives_match : forall fx col P comps clear jm, fix_barrier fx = true ->
+  SplitComm.collectives_match col P (split_trace fx col P comps clear jm).
+Proof. exact SplitCommProofs.collectives_match_split. Qed.
+Print Assumptions collectives_match.
+
+(** ... and in the blocking semantics of collectives (every collective synchronises all members -- the most
+    demanding reading of MPI), whatever the order in which communicators get to proceed: every reachable state can
+    be completed, is either finished or has an enabled step (no deadlock), and no run is longer than the number
+    of events. *)
+Theorem split_no_deadlock : forall fx col P comps clear jm, fix_barrier fx = true -> 1 <= P ->
+  forall pre st, coll_run col P pre (split_trace fx col P comps clear jm) = Some st ->
+  completable col P st /\
+  (finished P st \/ exists cm st', coll_step col P cm st = Some st') /\
+  length pre <= remaining P (split_trace fx col P comps clear jm).
+Proof. exact SplitCommProofs.split_no_deadlock. Qed.
+Print Assumptions split_no_deadlock.
+
+(** computeAll_nosplit, a single TwoParticleGF::compute, Hamiltonian::prepare / compute on the communicator passed
+    in: the same, for ANY variant of the code. *)
+Theorem collectives_match_nosplit : forall fx col P comps clear jm,
+  SplitComm.collectives_match col P (nosplit_trace fx comps clear jm).
+Proof. exact SplitCommProofs.collectives_match_nosplit. Qed.
+Print Assumptions collectives_match_nosplit.
+
+Theorem collectives_match_single : forall fx col P c clear jmk,
+  SplitComm.collectives_match col P (single_trace fx c clear jmk).
+Proof. exact SplitCommProofs.collectives_match_single. Qed.
+Print Assumptions collectives_match_single.
+
+Theorem collectives_match_hamiltonian : forall fx col P nblocks jmk,
+  SplitComm.collectives_match col P (ham_prepare_trace fx World nblocks jmk) /\
+  SplitComm.collectives_match col P (ham_compute_trace fx World nblocks jmk).
+Proof. exact SplitCommProofs.collectives_match_hamiltonian. Qed.
+Print Assumptions collectives_match_hamiltonian.
+
+Theorem nosplit_no_deadlock : forall fx col P comps clear jm, 1 <= P ->
+  forall pre st, coll_run col P pre (nosplit_trace fx comps clear jm) = Some st ->
+  completable col P st /\
+  (finished P st \/ exists cm st', coll_step col P cm st = Some st') /\
+  length pre <= remaining P (nosplit_trace fx comps clear jm).
+Proof. exact SplitCommProofs.nosplit_no_deadlock. Qed.
+Print Assumptions nosplit_no_deadlock.
+
+Theorem hamiltonian_no_deadlock : forall fx col P nblocks jmk, 1 <= P ->
+  let trace := fun r => ham_prepare_trace fx World nblocks jmk r ++ ham_compute_trace fx World nblocks jmk r in
+  forall pre st, coll_run col P pre trace = Some st ->
+  completable col P st /\
+  (finished P st \/ exists cm st', coll_step col P cm st = Some st') /\
+  length pre <= remaining P trace.
+Proof. exact SplitCommProofs.hamiltonian_no_deadlock. Qed.
+Print Assumptions hamiltonian_no_deadlock.
+
+(* ------------------------------------------------------------------------------------------------------- *)
+(** * Colours *)
+
+(** Exact arithmetic, every P >= 1, every number of components: every colour 0..ncolors-1 has a rank; rank
+    colours are in range; element colours are < ncolors; every colour has an element (ncolors <= ncomponents
+    always holds: ncolors = min(P, ncomponents)). *)
+Theorem every_colour_nonempty : forall P ncomp, 1 <= P ->
+  let col := exact_colouring P ncomp in let nc := ncolors P ncomp in
+  (forall c, c < nc -> exists r, r < P /\ pcol col r = c) /\
+  (forall r, r < P -> pcol col r < Nat.max 1 nc) /\
+  (forall k, k < ncomp -> ecol col k < nc) /\
+  (forall c, c < nc -> exists k, k < ncomp /\ ecol col k = c).
+Proof. exact SplitCommProofs.every_colour_nonempty_exact. Qed.
+Print Assumptions every_colour_nonempty.
+
+(** The colours the C++ computes (binary64), 1 <= P <= 64, every number of components: a complete finite sweep
+    over (P, ncolors <= P, p < P) by vm_compute.  BOUND: P <= 64. *)
+Theorem every_colour_nonempty_float : forall P ncomp, 1 <= P <= 64 ->
+  let col := float_colouring P ncomp in let nc := ncolors P ncomp in
+  (forall c, c < nc -> exists r, r < P /\ pcol col r = c) /\
+  (forall r, r < P -> pcol col r < Nat.max 1 nc) /\
+  (forall k, k < ncomp -> ecol col k < nc) /\
+  (forall c, c < nc -> exists k, k < ncomp /\ ecol col k = c).
+Proof. exact SplitCommProofs.every_colour_nonempty_float. Qed.
+Print Assumptions every_colour_nonempty_float.
+
+(** the executable check the driver prints (colours_ok) means: the colour of every element has a rank *)
+Theorem colours_ok_b_spec : forall col P ncomp,
+  colours_ok_b col P ncomp = true <-> (forall k, k < ncomp -> exists r, r < P /\ pcol col r = ecol col k).
+Proof. exact SplitCommProofs.colours_ok_b_spec. Qed.
+Print Assumptions colours_ok_b_spec.
+
+(** The binary64 rank colour equals floor(p*ncolors/P) for P <= 17 (BOUND: complete sweep) ...
+    PARTIAL with respect to the planned statement (P <= 64): the full statement
+      forall P nc p, 1 <= P <= 64 -> 1 <= nc <= P -> p < P -> fcolN P nc p = ecolN P nc p
+    is FALSE, see the next theorem. *)
+Theorem float_color_eq_exact_partial : forall P nc p, 1 <= P <= 17 -> 1 <= nc <= P -> p < P ->
+  fcolN P nc p = ecolN P nc p.
+Proof. exact SplitCommProofs.float_color_eq_exact_17. Qed.
+Print Assumptions float_color_eq_exact_partial.
+
+(** ... and differs at P = 18, ncolors = 14, p = 9 (double: 6, exact: 7).  Harmless for C06 (all colours stay
+    inhabited), but predictions must use the float expression. *)
+Theorem float_color_neq_exact_18 : exists P nc p, p < P /\ 1 <= nc <= P /\ fcolN P nc p <> ecolN P nc p.
+Proof. exact SplitCommProofs.float_color_neq_exact_18. Qed.
+Print Assumptions float_color_neq_exact_18.
+
+(** the exact-arithmetic rank colour is floor(p*ncolors/P) (characterisation of the generated definition) *)
+Theorem exact_colour_is_floor : forall P nc p, 1 <= P -> 1 <= nc -> ecolN P nc p = (p * nc) / P.
+Proof. exact SplitCommProofs.exact_color_nat. Qed.
+Print Assumptions exact_colour_is_floor.
+
+(* ------------------------------------------------------------------------------------------------------- *)
+(** * Where the data is afterwards (computeAll_split) *)
+
+(** Repaired root: the rank that broadcasts component k's table is a member of k's colour, is rank 0 of that
+    colour's communicator (where TwoParticleGF::compute reduces to), and is the smallest world rank of the colour. *)
+Theorem reduce_root_is_sender : forall fx col P, fix_root fx = true -> forall k,
+  (exists r, r < P /\ pcol col r = ecol col k) ->
+  let s := sender fx col P k in
+  In s (members col P (Colour (ecol col k))) /\
+  local_rank col (Colour (ecol col k)) s = 0 /\
+  forall q, In q (members col P (Colour (ecol col k))) -> s <= q.
+Proof. exact SplitCommProofs.reduce_root_is_sender. Qed.
+Print Assumptions reduce_root_is_sender.
+
+(** Repaired root, non-empty frequency list, non-vanishing component with >= 1 part: the table returned by
+    computeAll_split is the same on EVERY rank and contains every part exactly once (TData l, l a permutation of
+    0..nparts-1) -- the table a single-rank run returns. *)
+Theorem tables_all_ranks_sum : forall fx col P comps clear fne jm, fix_root fx = true -> fne = true ->
+  forall k c, nth_error comps k = Some c -> vanishing c = false -> 1 <= nparts c ->
+  (exists r, r < P /\ pcol col r = ecol col k) ->
+  jm_in_range (jm k) (nparts c) (colour_size col P k) ->
+  exists l, Permutation l (seq 0 (nparts c)) /\
+            forall r, exists st, nth_error (split_state fx col P comps clear fne jm r) k = Some st /\ tab st = TData l.
+Proof. exact SplitCommProofs.tables_all_ranks_sum. Qed.
+Print Assumptions tables_all_ranks_sum.
+
+(** Repaired status, terms not purged: every component (vanishing or not) can be evaluated on every rank
+    (TwoParticleGFPart::operator() does not throw) and every part's term lists are filled there. *)
+Theorem terms_and_status_everywhere : forall fx col P comps clear fne jm, fix_status fx = true -> clear = false ->
+  forall k c, nth_error comps k = Some c ->
+  (exists r, r < P /\ pcol col r = ecol col k) ->
+  jm_in_range (jm k) (nparts c) (colour_size col P k) ->
+  forall r, exists st, nth_error (split_state fx col P comps clear fne jm r) k = Some st /\
+                       evaluable c st = true /\ has_all_terms c st = true.
+Proof. exact SplitCommProofs.terms_and_status_everywhere. Qed.
+Print Assumptions terms_and_status_everywhere.
+
+(* ------------------------------------------------------------------------------------------------------- *)
+(** * Unsplit computation, single compute, Hamiltonian *)
+
+(** computeAll_nosplit / TwoParticleGF::compute on P ranks: rank 0 returns the full sum; every other rank returns
+    a table of zeros (boost::mpi::reduce to rank 0, no broadcast -- by design: the interface returns the table on
+    the root only). *)
+Theorem nosplit_root_has_sum : forall P comps clear fne jm, fne = true ->
+  forall k c, nth_error comps k = Some c -> vanishing c = false ->
+  jm_in_range (jm k) (nparts c) P ->
+  (exists st, nth_error (nosplit_state P comps clear fne jm 0) k = Some st /\ is_full_sum (nparts c) (tab st)) /\
+  (forall r, r <> 0 -> exists st, nth_error (nosplit_state P comps clear fne jm r) k = Some st /\ tab st = TData []).
+Proof. exact SplitCommProofs.nosplit_root_has_sum. Qed.
+Print Assumptions nosplit_root_has_sum.
+
+(** ... while terms and statuses are on every rank when not purged. *)
+Theorem nosplit_terms_everywhere : forall P comps clear fne jm, clear = false ->
+  forall k c, nth_error comps k = Some c -> jm_in_range (jm k) (nparts c) P ->
+  forall r, exists st, nth_error (nosplit_state P comps clear fne jm r) k = Some st /\
+                       evaluable c st = true /\ has_all_terms c st = true.
+Proof. exact SplitCommProofs.nosplit_terms_everywhere. Qed.
+Print Assumptions nosplit_terms_everywhere.
+
+(** Hamiltonian::compute: every rank holds, for every block, the eigenvalues / eigenvectors computed by the one
+    rank that diagonalised it; hence identical eigen-data on all ranks. *)
+Theorem eigendata_identical : forall P jmk nblocks, jm_in_range jmk nblocks P ->
+  forall r p, r < P -> p < nblocks -> ham_block_source P jmk r p = Some (jmk p).
+Proof. exact SplitCommProofs.eigendata_identical. Qed.
+Print Assumptions eigendata_identical.
+
+(* ------------------------------------------------------------------------------------------------------- *)
+(** * Summary for the repaired code *)
+
+(** All of the above for computeAll_split with all three repairs, ALL P >= 1, colours in exact arithmetic:
+    collectives match; no deadlock under any order of progress; the sender is rank 0 of its colour's communicator;
+    tables are the full sum on every rank; unpurged components evaluate on every rank. *)
+Theorem split_repaired_exact : forall P, 1 <= P ->
+  forall (comps : list component) (clear fne : bool) (jm : nat -> nat -> nat),
+  let fx := all_fixed in
+  let col := exact_colouring P (length comps) in
+  SplitComm.collectives_match col P (split_trace fx col P comps clear jm) /\
+  (forall pre st, coll_run col P pre (split_trace fx col P comps clear jm) = Some st ->
+     completable col P st /\ (finished P st \/ exists cm st', coll_step col P cm st = Some st') /\
+     length pre <= remaining P (split_trace fx col P comps clear jm)) /\
+  forall k c, nth_error comps k = Some c -> jm_in_range (jm k) (nparts c) (colour_size col P k) ->
+    (In (sender fx col P k) (members col P (Colour (ecol col k))) /\
+     local_rank col (Colour (ecol col k)) (sender fx col P k) = 0) /\
+    (vanishing c = false -> 1 <= nparts c -> fne = true ->
+       exists l, Permutation l (seq 0 (nparts c)) /\
+                 forall r, exists st, nth_error (split_state fx col P comps clear fne jm r) k = Some st /\ tab st = TData l) /\
+    (clear = false ->
+       forall r, exists st, nth_error (split_state fx col P comps clear fne jm r) k = Some st /\
+                            evaluable c st = true /\ has_all_terms c st = true).
+Proof. exact SplitCommProofs.split_repaired_exact. Qed.
+Print Assumptions split_repaired_exact.
+
+(** The same with the colours the C++ computes, 1 <= P <= 64 (BOUND from the float sweep) ... *)
+Theorem split_repaired_float64 : forall P, 1 <= P <= 64 ->
+  forall (comps : list component) (clear fne : bool) (jm : nat -> nat -> nat),
+  let fx := all_fixed in
+  let col := float_colouring P (length comps) in
+  SplitComm.collectives_match col P (split_trace fx col P comps clear jm) /\
+  (forall pre st, coll_run col P pre (split_trace fx col P comps clear jm) = Some st ->
+     completable col P st /\ (finished P st \/ exists cm st', coll_step col P cm st = Some st') /\
+     length pre <= remaining P (split_trace fx col P comps clear jm)) /\
+  forall k c, nth_error comps k = Some c -> jm_in_range (jm k) (nparts c) (colour_size col P k) ->
+    (In (sender fx col P k) (members col P (Colour (ecol col k))) /\
+     local_rank col (Colour (ecol col k)) (sender fx col P k) = 0) /\
+    (vanishing c = false -> 1 <= nparts c -> fne = true ->
+       exists l, Permutation l (seq 0 (nparts c)) /\
+                 forall r, exists st, nth_error (split_state fx col P comps clear fne jm r) k = Some st /\ tab st = TData l) /\
+    (clear = false ->
+       forall r, exists st, nth_error (split_state fx col P comps clear fne jm r) k = Some st /\
+                            evaluable c st = true /\ has_all_terms c st = true).
+Proof. exact SplitCommProofs.split_repaired_float64. Qed.
+Print Assumptions split_repaired_float64.
+
+(** ... and for ANY P with the float colours, given the executable check [colours_ok_b] that the driver evaluates
+    for the configuration at hand (line CASE ... colours_ok=1). *)
+Theorem split_repaired_float_checked : forall P comps, 1 <= P ->
+  colours_ok_b (float_colouring P (length comps)) P (length comps) = true ->
+  forall clear fne jm, let col := float_colouring P (length comps) in
+  SplitComm.collectives_match col P (split_trace all_fixed col P comps clear jm) /\
+  (forall pre st, coll_run col P pre (split_trace all_fixed col P comps clear jm) = Some st ->
+     completable col P st /\ (finished P st \/ exists cm st', coll_step col P cm st = Some st') /\
+     length pre <= remaining P (split_trace all_fixed col P comps clear jm)) /\
+  forall k c, nth_error comps k = Some c -> jm_in_range (jm k) (nparts c) (colour_size col P k) ->
+    (vanishing c = false -> 1 <= nparts c -> fne = true ->
+       exists l, Permutation l (seq 0 (nparts c)) /\
+                 forall r, exists st, nth_error (split_state all_fixed col P comps clear fne jm r) k = Some st /\ tab st = TData l) /\
+    (clear = false ->
+       forall r, exists st, nth_error (split_state all_fixed col P comps clear fne jm r) k = Some st /\
+                            evaluable c st = true /\ has_all_terms c st = true).
+Proof. exact SplitCommProofs.split_repaired_float_checked. Qed.
+Print Assumptions split_repaired_float_checked.
+
+(* ------------------------------------------------------------------------------------------------------- *)
+(** * The original code: counter-examples (each replayed on the real library by checks/C06.py) *)
+
+(** D1: 2 ranks, 3 non-vanishing components: the two ranks issue different sequences on the world communicator
+    (MPI_Barrier(MPI_COMM_WORLD) inside mpi_skel::run, once per computed component) ... *)
+Theorem collectives_match_refuted : exists P comps clear jm,
+  let col := float_colouring P (length comps) in
+  ~ SplitComm.collectives_match col P (split_trace none_fixed col P comps clear jm).
+Proof. exact SplitCommProofs.collectives_match_refuted. Qed.
+Print Assumptions collectives_match_refuted.
+
+(** ... and a state is reachable in which ranks still have collectives to issue and no communicator can proceed. *)
+Theorem split_deadlock_refuted : exists P comps clear jm sched,
+  let col := float_colouring P (length comps) in
+  match coll_run col P sched (split_trace none_fixed col P comps clear jm) with
+  | Some st => all_done P st = false /\ forall cm, coll_step col P cm st = None
+  | None => False
+  end.
+Proof. exact SplitCommProofs.split_deadlock_refuted. Qed.
+Print Assumptions split_deadlock_refuted.
+
+(** D2: 2 ranks, 1 component: every rank returns a table of zeros (root of the broadcast = last rank of the
+    colour, root of the reduction = first). *)
+Theorem reduce_root_refuted : exists P comps clear jm,
+  let col := float_colouring P (length comps) in
+  forall r, r < P -> exists st, nth_error (split_state none_fixed col P comps clear true jm r) 0 = Some st /\
+                                tab st = TData [] /\ ~ is_full_sum 1 (tab st).
+Proof. exact SplitCommProofs.reduce_root_refuted. Qed.
+Print Assumptions reduce_root_refuted.
+
+(** D3: 2 ranks, 2 components, terms kept: a rank holds all terms of the other colour's component but cannot
+    evaluate it. *)
+Theorem status_refuted : exists P comps jm r k c st,
+  let col := float_colouring P (length comps) in
+  r < P /\ nth_error comps k = Some c /\
+  nth_error (split_state none_fixed col P comps false true jm r) k = Some st /\
+  has_all_terms c st = true /\ evaluable c st = false.
+Proof. exact SplitCommProofs.status_refuted. Qed.
+Print Assumptions status_refuted.
+
+(* ------------------------------------------------------------------------------------------------------- *)
+(** * OpenMP threads *)
+
+(** The per-frequency accumulation `data[w] += part(freqs[w])` under `#pragma omp parallel for`: iteration w
+    touches cell w only, so schedules that are permutations of each other give the same table ... *)
+Theorem omp_schedule_independent : forall (V : Type) (add : V -> V -> V) (val : nat -> V) (s s' : list nat),
+  Permutation s s' -> forall d : list V, run_schedule V add val s d = run_schedule V add val s' d.
+Proof. exact SplitCommProofs.omp_schedule_independent. Qed.
+Print Assumptions omp_schedule_independent.
+
+(** ... in particular every partition of the iterations 0..n-1 into per-thread chunks, executed in any
+    interleaving, gives the sequential result ... *)
+Theorem omp_any_partition : forall (V : Type) (add : V -> V -> V) (val : nat -> V)
+  (chunks : list (list nat)) (sched : list nat) (n : nat) (d : list V),
+  Permutation (concat chunks) (seq 0 n) -> Permutation sched (concat chunks) ->
+  run_schedule V add val sched d = run_schedule V add val (seq 0 n) d.
+Proof. exact SplitCommProofs.omp_any_partition. Qed.
+Print Assumptions omp_any_partition.
+
+(** ... also at the grain of individual reads and writes of the shared table: any number of threads, any
+    assignment of iterations to threads (each iteration to exactly one), any interleaving of the threads' reads and
+    writes; once all threads are done the table is the sequential one.  (The hypothesis is satisfiable for every
+    input: [par_run_can_finish].) *)
+Theorem omp_interleaving_independent : forall (V : Type) (add : V -> V -> V) (val : nat -> V)
+  (chunks : list (list nat)) (d : list V) (choices : list nat),
+  NoDup (concat chunks) ->
+  threads_done V (snd (par_run V add val choices d chunks)) = true ->
+  fst (par_run V add val choices d chunks) = run_schedule V add val (concat chunks) d.
+Proof. exact SplitCommProofs.omp_interleaving_independent. Qed.
+Print Assumptions omp_interleaving_independent.
+
+Theorem par_run_can_finish : forall (V : Type) (add : V -> V -> V) (val : nat -> V)
+  (chunks : list (list nat)) (d : list V),
+  exists choices, threads_done V (snd (par_run V add val choices d chunks)) = true.
+Proof. exact SplitCommProofs.par_run_can_finish. Qed.
+Print Assumptions par_run_can_finish.
